@@ -352,6 +352,53 @@ impl System for CtlWire {
     }
 }
 
+/// A sequence of controller operations through ONE wire (one SerialSignBus, one bridge) and, in parallel, directly
+/// on an identical bus: the BFS above builds a fresh wire per step, so anything the serial bus or the bridge carries
+/// over from one operation to the next (a remembered chunk, a pending flag) only shows here.
+pub fn ctl_seq(sys: &CtlWire, seq: &[usize]) -> Vec<V> {
+    let t = SIGN_TYPES[sys.type_idx].0;
+    let other = SIGN_TYPES[(sys.type_idx + 4) % 11].0;
+    let init = sys.initial();
+    flipdot_serial::verif_hooks::set_handler(Some(Box::new(|_d| {})));
+    let wire = match make_wire(init.wire.clone()) {
+        Ok(w) => w,
+        Err(e) => return vec![("setup".into(), "make-wire".into(), e)],
+    };
+    let direct = Rc::new(RefCell::new(init.direct.clone()));
+    let mut viol: Vec<V> = vec![];
+    for (k, &a) in seq.iter().enumerate() {
+        let op = sys.ops[a];
+        let serial: Rc<RefCell<dyn SignBus>> = wire.serial.clone();
+        let direct_dyn: Rc<RefCell<dyn SignBus>> = direct.clone();
+        let (lists, own_addr) = (&sys.lists, sys.own);
+        let rw = catch(|| run_op(serial, op, own_addr, t, other, lists));
+        let rd = catch(|| run_op(direct_dyn, op, own_addr, t, other, lists));
+        let desc = format!("operation #{} {:?} of the sequence {:?} through one wire ({:?}, {})", k, op, seq.iter().map(|&i| sys.ops[i]).collect::<Vec<_>>(), t, if sys.automatic { "automatic" } else { "manual" });
+        let (rw, rd) = match (rw, rd) {
+            (Ok(a), Ok(b)) => (a, b),
+            (a, b) => {
+                let p = a.err().or(b.err()).unwrap();
+                viol.push(("no-panic".into(), p.class(), format!("{} panicked: {}", desc, p.message)));
+                break;
+            }
+        };
+        match (&rw, &rd) {
+            (Ok(x), Ok(y)) if x == y => {}
+            (Err(_), Err(_)) => {}
+            _ => viol.push(("succeeds-exactly-when-direct-succeeds".into(), format!("sequence:{:?}:wire-{}-direct-{}", op, if rw.is_ok() { "ok" } else { "err" }, if rd.is_ok() { "ok" } else { "err" }), format!("{}: over the wire {:?}, directly {:?}", desc, rw, rd))),
+        }
+        let (wa, da) = (wire.bus.borrow().clone(), direct.borrow().clone());
+        if obs(&wa, 2) != obs(&da, 2) {
+            viol.push(("same-state-type-pages".into(), format!("sequence:{:?}", op), format!("{}: signs differ afterwards: wire {:?} vs direct {:?}", desc, obs(&wa, 2).iter().map(|o| (o.0, o.1, o.2.len())).collect::<Vec<_>>(), obs(&da, 2).iter().map(|o| (o.0, o.1, o.2.len())).collect::<Vec<_>>())));
+        }
+        if !viol.is_empty() {
+            break;
+        }
+    }
+    flipdot_serial::verif_hooks::set_handler(None);
+    viol
+}
+
 // ---------------------------------------------------------------------------------------------------------
 // (b) message level
 
@@ -644,6 +691,35 @@ pub fn run(ctx: &Ctx) -> Report {
             }
         }
     }
+    // all ordered pairs and triples of controller operations through one wire
+    {
+        let mut seq_acc = Acc::default();
+        for &ti in if thorough { &types[..] } else { &types[..1] } {
+            for automatic in [false, true] {
+                let sys = CtlWire { type_idx: ti, automatic, own: 3, lists: page_lists(SIGN_TYPES[ti].0, ctx.seed), ops: ops.clone() };
+                let n = ops.len();
+                let mut seqs: Vec<Vec<usize>> = vec![];
+                for a in 0..n {
+                    for b in 0..n {
+                        seqs.push(vec![a, b]);
+                        for c in 0..n {
+                            seqs.push(vec![a, b, c]);
+                        }
+                    }
+                }
+                for (si, seq) in seqs.iter().enumerate() {
+                    seq_acc.evals += 1;
+                    seq_acc.outcomes.add("controller-sequence-through-one-wire");
+                    for (clause, class, detail) in ctl_seq(&sys, seq) {
+                        seq_acc.violation("C17", Violation::new(&clause, class, detail, json!({"kind": "ctl-seq", "system": sys.config_json(), "ops": seq}), (1 << 53) + ((seq.len() as u64) << 32) + si as u64));
+                    }
+                }
+            }
+        }
+        rep.transitions += seq_acc.evals;
+        rep.set("controller_sequences_through_one_wire", json!(seq_acc.evals));
+        rep.absorb(seq_acc);
+    }
     if thorough {
         // every chunk length 0..=255 crosses the wire (R1 alphabet), manual flip
         let mut a = crate::signsys::alphabet_r1(true);
@@ -768,6 +844,14 @@ pub fn replay(ctx: &Ctx, case: &Value) -> Result<Vec<Violation>, String> {
                 }
                 _ => Err("unknown system".into()),
             }
+        }
+        Some("ctl-seq") => {
+            let sj = &case["system"];
+            let ti = sj["type_index"].as_u64().ok_or("type_index")? as usize;
+            let ops = vec![WOp::Configure, WOp::ConfigureIfNeeded, WOp::SendPages(0), WOp::SendPages(1), WOp::SendPages(2), WOp::SendPages(3), WOp::Show, WOp::LoadNext, WOp::ShutDown, WOp::ConfigureAsOther, WOp::ConfigureAbsent];
+            let sys = CtlWire { type_idx: ti, automatic: sj["automatic"].as_bool().unwrap_or(false), own: sj["own"].as_u64().ok_or("own")? as u16, lists: page_lists(SIGN_TYPES[ti].0, ctx.seed), ops };
+            let seq: Vec<usize> = case["ops"].as_array().ok_or("ops")?.iter().map(|x| x.as_u64().unwrap() as usize).collect();
+            Ok(mk(ctl_seq(&sys, &seq)))
         }
         Some("bridge-seq-cut") => {
             let cut = if case["cut"].as_str() == Some("timeout") { RAns::Fail(io::ErrorKind::TimedOut) } else { RAns::Eof };
